@@ -75,11 +75,22 @@ Expected(o, g, x) ==
   ELSE IF g[x].sil > g[x].join THEN {3, 4}      \* left silently (no alive peer known): others may or may not learn of it
   ELSE {4}
 
+Viewer(o, n) == o[n + 1].up /\ o[n + 1].sstate = 0        \* running members that have not begun leaving
 Disagreements(o, g) ==
   { <<n, x>> \in Nodes \X Nodes :
-       /\ o[n + 1].up /\ o[n + 1].sstate = 0        \* viewers: running members that have not begun leaving
+       /\ Viewer(o, n)
        /\ o[n + 1].mem[x + 1].st # 0
        /\ o[n + 1].mem[x + 1].st \notin Expected(o, g, x) }
+\* When undelivered gossip may be lost for good, a leave can only be known if it reached some member that is
+\* still running: then state sync must spread it to every viewer; otherwise "failed" is all anyone can know.
+ExpectedSync(o, g, x) ==
+  IF Expected(o, g, x) = {3} /\ ~(\E v \in Nodes : Viewer(o, v) /\ o[v + 1].mem[x + 1].st \in {2, 3})
+    THEN {3, 4} ELSE Expected(o, g, x)
+DisagreementsSync(o, g) ==
+  { <<n, x>> \in Nodes \X Nodes :
+       /\ Viewer(o, n)
+       /\ o[n + 1].mem[x + 1].st # 0
+       /\ o[n + 1].mem[x + 1].st \notin ExpectedSync(o, g, x) }
 
 MonInit == M = [bad |-> {}, tags |-> {}, dis |-> {}, g |-> [x \in Nodes |-> IF Formed THEN [join |-> 1, leave |-> -1, sil |-> -1] ELSE NoG]]
 
@@ -90,7 +101,8 @@ MonStep(m, act, pre, post, g) ==
                 (pre[n + 1].up /\ post[n + 1].up /\ pre[n + 1].mem[x + 1].st # 0 /\ post[n + 1].mem[x + 1].st # 0)
                    => post[n + 1].mem[x + 1].lt >= pre[n + 1].mem[x + 1].lt
       selfAlive == \A n \in Nodes : (post[n + 1].up /\ post[n + 1].sstate = 0) => post[n + 1].mem[n + 1].st = 1
-      dis == IF act.a = "quiet" THEN Disagreements(post, g) ELSE {}
+      dis == IF act.a = "quiet" THEN Disagreements(post, g)
+             ELSE IF act.a = "synced" THEN DisagreementsSync(post, g) ELSE {}
       \* a state sync copied a member's "leaving at t" entry as a plain status time: the receiver now
       \* holds time t for a member it still lists alive (or failed), so the leave intent at t itself will be stale
       laundered(n, mm) ==
@@ -110,7 +122,8 @@ MonStep(m, act, pre, post, g) ==
         \cup (IF act.a = "join" /\ (laundered(act.n, act.m) \/ laundered(act.m, act.n)) THEN {"leaving_laundered_by_pushpull"} ELSE {})
   IN  [ bad  |-> m.bad \cup (IF mono THEN {} ELSE {"C02_status_time_decreased"})
                        \cup (IF selfAlive THEN {} ELSE {"C03_self_not_alive"})
-                       \cup (IF dis = {} THEN {} ELSE {"C02_views_disagree_when_quiet"}),
+                       \cup (IF dis # {} /\ act.a = "quiet" THEN {"C02_views_disagree_when_quiet"} ELSE {})
+                       \cup (IF dis # {} /\ act.a = "synced" THEN {"C02_views_disagree_after_sync"} ELSE {}),
         tags |-> m.tags \cup newtags,
         dis  |-> dis,
         g    |-> g ]
@@ -240,6 +253,21 @@ Quiet ==
        /\ \A m \in Nodes : (m # n /\ up[m] /\ m \in linked[n]) => NoChange(n, Merge(R[n], PPOf(R[m])))
        /\ \A x \in linked[n] : (x \in ml[n]) <=> Truthful(x)
 
+\* Synced: every gossip message still undelivered may be lost for good; state-sync exchanges (and truthful
+\* notifications) alone have been run to a fixpoint.  The property promises agreement here too.
+Synced ==
+  /\ phase = "sync"
+  /\ \A n \in Nodes : up[n] =>
+       /\ R[n].sstate # 1
+       /\ \A m \in Nodes : (m # n /\ up[m] /\ m \in linked[n]) => NoChange(n, Merge(R[n], PPOf(R[m])))
+       /\ \A x \in linked[n] : (x \in ml[n]) <=> Truthful(x)
+DeclareSynced ==
+  /\ Synced /\ last.a \notin {"quiet", "synced"}
+  /\ last' = [a |-> "synced"]
+  /\ obs' = [obs EXCEPT !.q = <<>>]
+  /\ M' = MonStep(M, [a |-> "synced"], obs.nodes, obs.nodes, G)
+  /\ UNCHANGED <<R, up, ml, linked, pool, G, phase, ops, spur>>
+
 \* the harness's "quiet" line: judged by the monitor
 DeclareQuiet ==
   /\ Quiet /\ last.a # "quiet"
@@ -274,6 +302,7 @@ Next ==
   \/ \E n, m \in Nodes : PushPull(n, m)
   \/ \E n, x \in Nodes : MLJoin(n, x) \/ MLLeave(n, x)
   \/ BeginSync
+  \/ DeclareSynced
   \/ DeclareQuiet
 
 Spec == Init /\ [][Next]_vars
@@ -283,7 +312,7 @@ ClockBound == \A n \in Nodes : R[n].clock <= MaxClock
 \* the agreement clause with the recorded findings carved out
 KnownTags == {"forceleave_of_running_member", "leaving_laundered_by_pushpull", "forceleave_time_not_above_join",
               "alive_again_after_leave_intent"}
-C02Agreement == ("C02_views_disagree_when_quiet" \in M.bad) => (M.tags \cap KnownTags # {})
-C02Strict == "C02_views_disagree_when_quiet" \notin M.bad
+C02Agreement == (M.bad \cap {"C02_views_disagree_when_quiet", "C02_views_disagree_after_sync"} # {}) => (M.tags \cap KnownTags # {})
+C02Strict == M.bad \cap {"C02_views_disagree_when_quiet", "C02_views_disagree_after_sync"} = {}
 StepClauses == "C02_status_time_decreased" \notin M.bad /\ "C03_self_not_alive" \notin M.bad
 =============================================================================
